@@ -402,6 +402,15 @@ impl UcdLineParser<ucd_parsers::UnicodeData> for UnassignedTableGen {
 
 impl CodeGen for UnassignedTableGen {
     fn generate_code(&mut self, file: &mut File) -> Result<(), Error> {
-        file_writer::generate_code_from_vec(file, &self.name, &self.vec)
+        // Code points after the last entry of `UnicodeData.txt` are unassigned too
+        let mut vec = self.vec.clone();
+        if self.range.start.value() <= 0x10ffff {
+            let last = ucd_parse::CodepointRange {
+                start: self.range.start,
+                end: ucd_parse::Codepoint::from_u32(0x10ffff)?,
+            };
+            common::add_codepoints(&last, &mut vec);
+        }
+        file_writer::generate_code_from_vec(file, &self.name, &vec)
     }
 }
